@@ -119,7 +119,14 @@ class Check:
                 knowns.append((o, known[k]))
             else:
                 violations.append(o)
-        os.makedirs(EVIDENCE_DIR, exist_ok=True)
+        evidence_dir = EVIDENCE_DIR
+        replay_dir = REPLAY_DIR
+        if os.path.realpath(self.prog.repo) != os.path.realpath('/repo') or os.environ.get('PKSTATIC_NO_EVIDENCE'):
+            # analysing a scratch copy (self-test variant, seeded change): never touch the real evidence
+            import tempfile
+            evidence_dir = os.path.join(tempfile.gettempdir(), f'pkstatic-scratch-{os.getpid()}')
+            replay_dir = os.path.join(evidence_dir, 'replay')
+        os.makedirs(evidence_dir, exist_ok=True)
         wall = time.time() - self.t0
         rules = sorted(self.instances)
         samples = [o.as_dict() for o in self._sample()]
@@ -150,7 +157,7 @@ class Check:
             'wall_s': round(wall, 3),
             'violations': len(violations),
         }
-        with open(os.path.join(EVIDENCE_DIR, f'{self.pid}.json'), 'w', encoding='utf-8') as fp:
+        with open(os.path.join(evidence_dir, f'{self.pid}.json'), 'w', encoding='utf-8') as fp:
             json.dump(ev, fp, indent=1, sort_keys=True)
             fp.write('\n')
         for o, text in knowns:
@@ -158,8 +165,8 @@ class Check:
         print(f'{self.pid} [{self.tier}] obligations={len(self.obs)} discharged={len(self.obs) - len(bad)} '
               f'rules={len(rules)} known={len(knowns)} violations={len(violations)} wall={wall:.2f}s')
         if violations:
-            os.makedirs(REPLAY_DIR, exist_ok=True)
-            path = os.path.join(REPLAY_DIR, f'{self.pid}.json')
+            os.makedirs(replay_dir, exist_ok=True)
+            path = os.path.join(replay_dir, f'{self.pid}.json')
             with open(path, 'w', encoding='utf-8') as fp:
                 json.dump({'property_id': self.pid, 'tier': self.tier,
                            'violations': [o.as_dict() for o in violations]}, fp, indent=1)
@@ -168,8 +175,16 @@ class Check:
                 if o.got or o.want:
                     print(f'       got : {o.got}\n       want: {o.want}')
             print(f'VIOLATION property={self.pid} replay={path}')
+            self._cleanup(evidence_dir)
             return 1
+        self._cleanup(evidence_dir)
         return 0
+
+    @staticmethod
+    def _cleanup(evidence_dir):
+        if evidence_dir != EVIDENCE_DIR:
+            import shutil
+            shutil.rmtree(evidence_dir, ignore_errors=True)
 
     def _sample(self):
         seen, out = set(), []
